@@ -81,6 +81,21 @@ func (d *detRand) Read(p []byte) (int, error) {
 // for the same key -- two nodes can then verify the same certificate.
 const AltSPKI = 1000
 
+var altOK *bool
+
+// AltOK reports whether the x509 package under test parses the alternative
+// SPKI encoding (an Ed25519 AlgorithmIdentifier with a NULL parameter; RFC 8410
+// says the parameters MUST be absent, so a stricter parser may reject it).
+// Universes with two encodings of one key are generated only when it does.
+func AltOK() bool {
+	if altOK == nil {
+		_, err := Build([]CertSpec{Root(0, AltSPKI)})
+		ok := err == nil
+		altOK = &ok
+	}
+	return *altOK
+}
+
 var keyCache = map[int]crypto.Signer{}
 
 // KeyFor returns the (deterministic) private key with the given id.
@@ -407,7 +422,7 @@ func Families() []Family {
 	nonCA := func(s CertSpec) CertSpec { s.CA = false; return s }
 	noBC := func(s CertSpec) CertSpec { s.CA = false; s.BCV = false; return s }
 	mpl := func(s CertSpec, n int) CertSpec { s.MPL = n; return s }
-	return []Family{
+	fs := []Family{
 		{"chain", []CertSpec{Root(0, 0), CA(1, 1, 0, 0), CA(2, 2, 1, 1), Leaf(3, 4, 2, 2)}},
 		{"cross-sign", []CertSpec{Root(0, 0), Root(1, 1), CA(2, 2, 0, 0), CA(2, 2, 1, 1), Leaf(3, 4, 2, 2)}},
 		// self-issued key roll-over: name 0 moves from key 0 to key 1
@@ -430,6 +445,16 @@ func Families() []Family {
 		// a root certificate whose own issuer is unknown (cross-signed trust anchor)
 		{"dangling-root", []CertSpec{CA(1, 1, 9, 8), Leaf(3, 4, 1, 1), CA(2, 2, 1, 1), Leaf(5, 5, 2, 2)}},
 	}
+	if AltOK() {
+		return fs
+	}
+	var out []Family
+	for _, f := range fs {
+		if f.Name != "two-spki" {
+			out = append(out, f)
+		}
+	}
+	return out
 }
 
 // Random returns n random specs over `names` names and `keys` keys.  Most
@@ -438,6 +463,9 @@ func Families() []Family {
 func Random(c *vh.Ctx, n, names, keys int) []CertSpec {
 	var specs []CertSpec
 	keyIDs := []int{0, 1, 2, AltSPKI, 4, 5, 3, 6, 7}
+	if !AltOK() {
+		keyIDs = []int{0, 1, 2, 8, 4, 5, 3, 6, 7}
+	}
 	if keys > len(keyIDs) {
 		keys = len(keyIDs)
 	}
